@@ -98,4 +98,18 @@ CHECKS = {
         assumptions=["4RD map-rule layout taken from the library's documentation of RFC 7600 (reduced independence for code 98)"],
         exhaustive_note="all byte strings over the 9-symbol alphabet up to the stated length behind both header kinds; all payload lengths 0..64 per typed code",
     ),
+    "C06": dict(
+        title="Decode->encode->decode is a fixpoint for DHCPv4 and DHCPv6",
+        stages=[dict(name="fix", shards=S16, timeout={"quick": 900, "thorough": 3600})],
+        rule="every input the library accepts among: generated NON-canonical DHCPv4 packets (unsorted, arbitrarily split, padded, trailing bytes, 64/128-byte names without NUL, hlen up to 255) and their mutants; "
+             "hand-built non-canonical DHCPv6 encodings (duplicate ORO codes, reserved 4RD flag bits, host bits beyond a prefix, prefix length 0 with an address, out-of-range prefix lengths, compressed and partial names, "
+             "maximal numeric fields, empty class items, embedded non-canonical DHCPv4, duplicate options) wrapped in 0..2 relays; generated DHCPv6 messages and their structure-aware mutants. "
+             "Shape = (v4 option-area shape | v6 set of kind paths | gray-zone reason) + flag 'input differs from its re-encoding'; non-trivial iff the input is non-canonical or nests >= 3 levels.",
+        technique="online fixpoint monitor on the real codec (b -> decode -> encode -> decode -> encode) plus an independent reference decoder comparing the RFC reading of the original and the re-encoded bytes",
+        level_text="For each accepted b: the re-encoding must decode, to an equal message (neutral tree; only the allowed v4 name cut applied), and must re-encode to identical bytes; when the reference decoder "
+                   "accepts b, its reading of b and of the re-encoding must be the same tree (the tree already erases exactly the allowed differences: v4 option order/padding/splitting, duplicate ORO codes, "
+                   "reserved 4RD bits, address bits beyond a prefix length), so a self-consistent but meaning-changing re-encoding is caught.",
+        level_note="Trusts harness/ref4, ref6 and proj; inputs in a gray zone of the reference are checked for library self-consistency only.",
+        assumptions=["hlen > 16 is re-encoded as the clipped length (chaddr bytes equal): treated as part of 'equal message'"],
+    ),
 }
